@@ -161,12 +161,16 @@ def stress_stage(pid, tier, seed):
         for r in range(reps):
             sd = int(hashlib.sha256(f'{seed}/{pid}/stress/{k}/{r}'.encode()).hexdigest()[:8], 16)
             jobs.append(['--kind', k, '--threads', '6', '--millis', str(millis), '--seed', str(sd), '--keys', str(2 + r), '--stop-on', pid])
-    # a large population (more keys than any small-capacity shortcut could hold; seeded change W8_C): plain calls only
+    # scale: a large population (more keys than any small-capacity shortcut could hold; seeded change W8_C) with plain calls and
+    # read-only sweeps; many waiters on one key; eviction rounds with many guards and limits up to usize::MAX
     for k in kinds:
+        def sd(tag):
+            return str(int(hashlib.sha256(f'{seed}/{pid}/stress/{k}/{tag}'.encode()).hexdigest()[:8], 16))
         if k != 'pool':
-            sd = int(hashlib.sha256(f'{seed}/{pid}/stress/{k}/many'.encode()).hexdigest()[:8], 16)
-            jobs.append(['--kind', k, '--threads', '4', '--millis', str(millis), '--seed', str(sd), '--keys', '700', '--limits', 'off',
+            jobs.append(['--kind', k, '--threads', '4', '--millis', str(millis), '--seed', sd('many'), '--keys', '400', '--limits', 'off',
                          '--stop-on', pid])
+            jobs.append(['--kind', k, '--threads', '6', '--millis', str(millis), '--seed', sd('evict'), '--keys', '40', '--stop-on', pid])
+        jobs.append(['--kind', k, '--threads', '12', '--millis', str(millis), '--seed', sd('waiters'), '--keys', '1', '--stop-on', pid])
     fails, runs = [], []
     with cf.ThreadPoolExecutor(max_workers=8) as ex:
         for args, (rep, out) in zip(jobs, ex.map(lambda a: run_stress_cmd(a, 40 + millis // 1000 * 3), jobs)):
